@@ -491,6 +491,7 @@ class Runner(object):
         ranges = [[lo - 3, min(hi - lo + 6, RANGE_CAP)]]
         r = rng("C15/fetch/%s" % tag)
         fetch = [[a + r.randrange(0, len(b)), L.maxlen()] for a, b in recs[:6] if b]
+        fetch += [[a, L.maxlen()] for a, b in recs if 0 < len(b) < 4][:8]          # tiny records: windows spanning several objects
         req = {"op": "load.records", "fix": "repaired", "records": [[a, b.hex()] for a, b in recs], "entry": entry, "pcbits": 32,
                "ranges": ranges, "fetch": fetch}
         model = drv.ask(req)
